@@ -88,6 +88,12 @@ type c04Gang struct {
 	mode, policy string // "" = not written (defaults apply)
 	groupAnno    string // value of the groups annotation, "" = absent (single-gang group only)
 
+	// spellings and late bundling (only drawn by the tests that say so; zero values = the plain spelling)
+	policySpelling int   // 0 primary match-policy key, 1 the compatibility (alias) key only, 2 both keys, the primary one wins
+	lightMinAnno   bool  // light-weight name label, but min-available given by the annotation
+	declGroup      []int // gang indexes of the group the gang CURRENTLY declares; nil = the whole group s.groups[grp]
+	lateAnno       string // groups annotation that a later PodGroup update will add (late bundling), "" = none pending
+
 	// PodGroup object (CRD gangs); its events are delivered synchronously
 	pgExists bool
 	pgVer    int
@@ -224,8 +230,12 @@ func (p *c04Pod) obj(v int) *corev1.Pod {
 	case g.light:
 		// nolint:staticcheck
 		pod.Labels[extension.LabelLightweightCoschedulingPodGroupName] = g.name
-		// nolint:staticcheck
-		pod.Labels[extension.LabelLightweightCoschedulingPodGroupMinAvailable] = strconv.Itoa(g.min)
+		if g.lightMinAnno {
+			pod.Annotations[extension.AnnotationGangMinNum] = strconv.Itoa(g.min)
+		} else {
+			// nolint:staticcheck
+			pod.Labels[extension.LabelLightweightCoschedulingPodGroupMinAvailable] = strconv.Itoa(g.min)
+		}
 	default:
 		pod.Annotations[extension.AnnotationGangName] = g.name
 		pod.Annotations[extension.AnnotationGangMinNum] = strconv.Itoa(g.min)
@@ -238,7 +248,7 @@ func (p *c04Pod) obj(v int) *corev1.Pod {
 			pod.Annotations[extension.AnnotationGangMode] = g.mode
 		}
 		if g.policy != "" {
-			pod.Annotations[extension.AnnotationGangMatchPolicy] = g.policy
+			g.writePolicy(pod.Annotations)
 		}
 		if g.groupAnno != "" {
 			pod.Annotations[extension.AnnotationGangGroups] = g.groupAnno
@@ -252,6 +262,48 @@ func (p *c04Pod) obj(v int) *corev1.Pod {
 	}
 	p.objs[v] = pod
 	return pod
+}
+
+// writePolicy writes the declared match policy (g.policy != "") in the gang's spelling.
+func (g *c04Gang) writePolicy(anno map[string]string) {
+	switch g.policySpelling {
+	case 1:
+		anno[extension.AnnotationAliasGangMatchPolicy] = g.policy
+	case 2:
+		anno[extension.AnnotationGangMatchPolicy] = g.policy
+		other := extension.GangMatchPolicyOnlyWaiting
+		if g.policy == other {
+			other = extension.GangMatchPolicyOnceSatisfied
+		}
+		anno[extension.AnnotationAliasGangMatchPolicy] = other // ignored: the primary key wins
+	default:
+		anno[extension.AnnotationGangMatchPolicy] = g.policy
+	}
+}
+
+// declared returns the gangs (indexes) of the gang group that g currently declares.
+func (s *c04Sim) declared(g *c04Gang) []int {
+	if g.declGroup != nil {
+		return g.declGroup
+	}
+	return s.groups[g.grp]
+}
+
+func (s *c04Sim) inDeclared(g, other *c04Gang) bool {
+	for _, gi := range s.declared(g) {
+		if gi == other.idx {
+			return true
+		}
+	}
+	return false
+}
+
+func (s *c04Sim) declaredIDs(g *c04Gang) []string {
+	var ids []string
+	for _, gi := range s.declared(g) {
+		ids = append(ids, s.gangs[gi].id)
+	}
+	return ids
 }
 
 func (p *c04Pod) hasNode(v int) bool { return p.bindVer > 0 && v >= p.bindVer }
@@ -268,7 +320,7 @@ func (g *c04Gang) buildPG() *v1alpha1.PodGroup {
 		pg.Annotations[extension.AnnotationGangMode] = g.mode
 	}
 	if g.policy != "" {
-		pg.Annotations[extension.AnnotationGangMatchPolicy] = g.policy
+		g.writePolicy(pg.Annotations)
 	}
 	if g.groupAnno != "" {
 		pg.Annotations[extension.AnnotationGangGroups] = g.groupAnno
@@ -362,10 +414,11 @@ func (s *c04Sim) counts(g *c04Gang, liveOnly bool) (w, b int) {
 // its minimum number of pods that hold resources under its match policy. exempt reports that the once-satisfied
 // exemption was needed for at least one gang. With liveOnly, pods whose informer delete has been delivered (but which
 // a Permit / PostBind that raced with the delete put back into the cache) are not counted.
-func (s *c04Sim) groupSatisfied(grp int, liveOnly bool) (ok, exempt bool, detail string) {
+func (s *c04Sim) groupSatisfied(of *c04Gang, liveOnly bool) (ok, exempt bool, detail string) {
+	grp := of.grp
 	ok = true
 	var parts []string
-	for _, gi := range s.groups[grp] {
+	for _, gi := range s.declared(of) {
 		g := s.gangs[gi]
 		w, b := s.counts(g, liveOnly)
 		var sat bool
@@ -406,6 +459,12 @@ func (s *c04Sim) describe() string {
 			kind = "crd"
 		} else if g.light {
 			kind = "light"
+		}
+		if g.policySpelling != 0 {
+			kind += fmt.Sprintf(" policyKey=%s", []string{"primary", "alias", "both"}[g.policySpelling])
+		}
+		if g.lightMinAnno {
+			kind += " minByAnnotation"
 		}
 		fmt.Fprintf(&b, "{%s %s group=%d min=%d total=%d mode=%q policy=%q groups=%q} ", g.id, kind, g.grp, g.min, g.total, g.mode, g.policy, g.groupAnno)
 	}
@@ -517,7 +576,7 @@ func (s *c04Sim) expectReject(p *c04Pod) c04RejectExpect {
 	}
 	e.active = true
 	for _, q := range s.pods {
-		if q.phase == c04PhParked && q.decision == c04DecNone && q.gang.grp == g.grp {
+		if q.phase == c04PhParked && q.decision == c04DecNone && s.inDeclared(g, q.gang) {
 			e.undecided = append(e.undecided, q)
 		}
 	}
@@ -535,7 +594,7 @@ func (s *c04Sim) checkReject(t *rapid.T, e c04RejectExpect, what string, p *c04P
 			if q.gang != e.g {
 				sig = "strict:waiting-member-of-sibling-gang-not-rejected"
 			}
-			s.violation(t, sig, "%s of %s (gang %s, strict, group %v not exempt): waiting pod %s of gang %s was not rejected", what, p.key, e.g.id, s.groupIDs(e.g.grp), q.key, q.gang.id)
+			s.violation(t, sig, "%s of %s (gang %s, strict, group %v not exempt): waiting pod %s of gang %s was not rejected", what, p.key, e.g.id, s.declaredIDs(e.g), q.key, q.gang.id)
 			return
 		}
 	}
@@ -668,8 +727,8 @@ func (s *c04Sim) permit(t *rapid.T, p *c04Pod) {
 	} else {
 		s.c.Class("divergence:gang-missing-in-model-but-found(not asserted)")
 	}
-	ok, exempt, detail := s.groupSatisfied(g.grp, false)
-	okLive, _, _ := s.groupSatisfied(g.grp, true)
+	ok, exempt, detail := s.groupSatisfied(g, false)
+	okLive, _, _ := s.groupSatisfied(g, true)
 	if s.disturbedAfter[g.grp] {
 		s.c.Class(s.disturbKind[g.grp])
 		if len(s.groups[g.grp]) >= 2 {
@@ -688,12 +747,12 @@ func (s *c04Sim) permit(t *rapid.T, p *c04Pod) {
 			if s.once[g.grp] {
 				sig += ":after-first-bind"
 			}
-			s.violation(t, sig, "Permit(%s) = Success but the gang group %v is not satisfied at that instant: %s", p.key, s.groupIDs(g.grp), detail)
+			s.violation(t, sig, "Permit(%s) = Success but the gang group %v is not satisfied at that instant: %s", p.key, s.declaredIDs(g), detail)
 			return
 		}
 		s.c.ClassIf(!okLive, "released-only-because-a-deleted-pod-is-counted(tolerated)")
 		if !okLive && os.Getenv("VERIF_C04_STRICT_DELETED") != "" { // opt-in, stricter than the default reading (see the registry assumptions)
-			_, _, live := s.groupSatisfied(g.grp, true)
+			_, _, live := s.groupSatisfied(g, true)
 			s.violation(t, "permit:released-counting-a-deleted-pod", "Permit(%s) = Success only because a pod whose informer delete was already handled is counted: live pods %s; all %s", p.key, live, detail)
 			return
 		}
